@@ -18,6 +18,7 @@ import collections
 import hashlib
 import json
 import os
+import sys
 import time
 import traceback
 from dataclasses import dataclass, field
@@ -52,7 +53,7 @@ class Outcome:
 @dataclass
 class Part:
     name: str
-    kind: str                       # "given" | "enum" | "machine"
+    kind: str                       # "given" | "enum" | "machine" | "covguided" (given-strategy driven by libFuzzer through atheris)
     shards: int
     examples: int                   # per shard (given/machine) ; ignored for enum
     strategy: Optional[Callable[[], Any]] = None       # given: () -> hypothesis strategy
@@ -336,4 +337,119 @@ def machine_report(ctx: Ctx, ctx_state: Dict[str, Any], case: Any, out: Outcome,
         raise _Fail(v.clause)
 
 
-DRIVERS = {"given": drive_given, "enum": drive_enum, "machine": drive_machine}
+DEPS = os.path.join(os.path.dirname(os.path.dirname(os.path.dirname(os.path.abspath(__file__)))), ".deps")
+
+
+def ensure_atheris() -> bool:
+    """atheris is not part of the repository's environment: install it (offline wheel) beside the checks, once."""
+    import fcntl
+    import subprocess
+
+    if DEPS not in sys.path:
+        sys.path.append(DEPS)
+    try:
+        import atheris  # noqa: F401
+        return True
+    except Exception:  # noqa: BLE001
+        pass
+    os.makedirs(DEPS, exist_ok=True)
+    with open(os.path.join(DEPS, ".lock"), "w") as lk:
+        fcntl.flock(lk, fcntl.LOCK_EX)
+        try:
+            import importlib
+            importlib.invalidate_caches()
+            import atheris  # noqa: F401,F811
+            return True
+        except Exception:  # noqa: BLE001
+            pass
+        subprocess.run([sys.executable, "-m", "pip", "install", "-q", "--no-index", "--find-links", "/opt/veriftools/wheels",
+                        "--target", DEPS, "atheris"], stdout=subprocess.DEVNULL, stderr=subprocess.DEVNULL)
+    try:
+        import importlib
+        importlib.invalidate_caches()
+        import atheris  # noqa: F401,F811
+        return True
+    except Exception:  # noqa: BLE001
+        return False
+
+
+def drive_covguided(ctx: Ctx) -> None:
+    """The part's Hypothesis strategy decodes libFuzzer's byte strings (hypothesis' fuzz_one_input); libFuzzer mutates them guided by
+    branch coverage of the instrumented `taskiq` package (instrumented at import in shard_main).  A violation is recorded with its
+    structured case (replayable as is; these failures are not shrunk) and the search goes on.  libFuzzer ends the process itself, so the
+    recorder is flushed to VERIF_SHARD_OUT from inside the callback."""
+    from hypothesis import HealthCheck, Verbosity, given, settings
+
+    rec, part, mod = ctx.rec, ctx.part, ctx.mod
+    if not ensure_atheris():
+        rec.counters["atheris_unavailable_fell_back_to_given"] += 1
+        drive_given(ctx)
+        return
+    import atheris
+    from hypothesis.internal.conjecture import providers as _prov
+
+    def _draw_integer(self: Any, min_value: Any = None, max_value: Any = None, *, weights: Any = None, shrink_towards: int = 0) -> int:
+        # hypothesis 6.168's BytestringProvider compares the raw drawn bits with [min_value, max_value] without adding min_value, so
+        # every range with min_value > max_value - min_value (epoch microseconds, ...) is rejected for ever; draw an offset instead
+        if min_value is None and max_value is None:
+            min_value, max_value = -(2**127), 2**127 - 1
+        elif min_value is None:
+            min_value = max_value - 2**64
+        elif max_value is None:
+            max_value = min_value + 2**64
+        if min_value == max_value:
+            return min_value
+        span = max_value - min_value
+        bits = span.bit_length()
+        value = self._draw_bits(bits)
+        while value > span:
+            value = self._draw_bits(bits)
+        return min_value + value
+
+    _prov.BytestringProvider.draw_integer = _draw_integer
+
+    muted: set = set()
+    n_target = part.examples
+    out_path = os.environ["VERIF_SHARD_OUT"]
+    state = {"n": 0, "last_flush": time.time()}
+
+    def flush() -> None:
+        tmp = out_path + ".tmp"
+        with open(tmp, "w") as f:
+            f.write(canon(rec.dump()))
+        os.replace(tmp, out_path)
+        state["last_flush"] = time.time()
+
+    def body(case: Any) -> None:
+        if ctx.deadline and time.time() > ctx.deadline:
+            rec.skipped += 1
+            return
+        out = mod.run_case(case)
+        rec.note(case, out)
+        for v in ctx.triage(case, out):
+            if v.clause not in muted:
+                muted.add(v.clause)
+                rec.failures.setdefault(v.clause, {"case": case, "clause": v.clause, "detail": v.detail, "trace": out.trace})
+
+    test = settings(database=None, deadline=None, verbosity=Verbosity.quiet,
+                    suppress_health_check=list(HealthCheck))(given(part.strategy())(body))
+    fuzz_one = test.hypothesis.fuzz_one_input
+
+    def one(data: bytes) -> None:
+        state["n"] += 1
+        try:
+            fuzz_one(data)
+        except BaseException:  # noqa: BLE001 - a harness problem, never a verdict
+            if len(rec.errors) < 3:
+                rec.errors.append("covguided callback raised: " + traceback.format_exc()[-2000:])
+        rec.counters["libfuzzer_inputs"] += 1
+        if state["n"] >= n_target - 1 or time.time() - state["last_flush"] > 5:
+            flush()
+
+    flush()
+    atheris.Setup([sys.argv[0], f"-runs={n_target}", f"-seed={ctx.seed % (2**31 - 1) + 1}", "-max_len=4096", "-len_control=0", "-print_final_stats=0",
+                   "-verbosity=" + os.environ.get("VERIF_LF_VERBOSITY", "0"), "-close_fd_mask=3", "-timeout=120", "-rss_limit_mb=4096"], one)
+    atheris.Fuzz()          # does not return
+
+
+DRIVERS = {"given": drive_given, "enum": drive_enum, "machine": drive_machine, "covguided": drive_covguided}
